@@ -45,6 +45,8 @@ type hist struct {
 	everPut        map[string]map[string]bool // when non-nil: every value ever put per key
 	focusLo        int
 	focusHi        int
+	growSeq        int
+	holeGrowSplits int
 }
 
 func mkValue(step, vlen int) string {
@@ -539,9 +541,99 @@ func (h *hist) phases(maxPhases, maxSteps int, weights []int) error {
 			if err := h.restart(true); err != nil {
 				return err
 			}
+		case 6:
+			if err := h.holeAndGrow(maxSteps); err != nil {
+				return err
+			}
 		}
 	}
 	return h.fullCheck("at the end of the history")
+}
+
+// holeAndGrow is a directed phase: it opens holes in the non-tail buckets of a long bucket chain
+// (deleting keys found there through the index dump) and then inserts fresh keys that live in
+// other chains, so that the index grows - and the split pointer passes the chain - while the
+// holes are still open. Flat generation reaches this shape in about 1 of 1000 histories.
+func (h *hist) holeAndGrow(maxSteps int) error {
+	type cand struct {
+		bucket int
+		keys   []string
+	}
+	find := func() []cand {
+		var out []cand
+		_ = core.Safe(func() error {
+			d, _, err := h.db.VerifIndexDump(100000)
+			if err != nil {
+				return err
+			}
+			for bi, chain := range d.Chains {
+				if len(chain) < 2 {
+					continue
+				}
+				c := cand{bucket: bi}
+				for _, b := range chain[:len(chain)-1] {
+					for _, sl := range b.Slots {
+						if sl.Offset == 0 {
+							continue
+						}
+						if k, _, err := h.db.VerifReadSlot(sl); err == nil {
+							c.keys = append(c.keys, string(k))
+						}
+					}
+				}
+				if len(c.keys) > 0 {
+					out = append(out, c)
+				}
+			}
+			return nil
+		})
+		return out
+	}
+	cands := find()
+	if len(cands) == 0 {
+		// build a long chain first: insert the class that shares the low 16 hash bits
+		h.ch.Note("phase hole-and-grow: building a chain first")
+		vlen := core.PickInt(h.ch, "vlen", []int{1, 5, 20})
+		for i, k := range h.ukeys {
+			if i < len(h.uni.Class) && h.uni.Class[i] == "low16" && h.step < maxSteps {
+				if _, live := h.model[k]; !live {
+					if err := h.put(k, vlen); err != nil {
+						return err
+					}
+				}
+			}
+		}
+		cands = find()
+		if len(cands) == 0 {
+			return nil
+		}
+	}
+	c := cands[h.ch.Int("holechain", 0, len(cands)-1)]
+	nd := h.ch.Int("holes", 1, 4)
+	h.ch.Note("phase hole-and-grow: chain of bucket %d, %d holes", c.bucket, nd)
+	for i := 0; i < nd && len(c.keys) > 0 && h.step < maxSteps; i++ {
+		j := h.ch.Int("holekey", 0, len(c.keys)-1)
+		k := c.keys[j]
+		c.keys = append(c.keys[:j], c.keys[j+1:]...)
+		if err := h.del(k); err != nil {
+			return err
+		}
+	}
+	grow := h.ch.Int("grow", 5, 120)
+	vlen := core.PickInt(h.ch, "vlen", []int{0, 1, 5, 20, 60})
+	bucketsBefore := h.lastBuckets
+	for i := 0; i < grow && h.step < maxSteps; i++ {
+		h.growSeq++
+		k := fmt.Sprintf("grow-%d-%d", h.growSeq, h.step)
+		h.ukeys = append(h.ukeys, k)
+		if err := h.put(k, vlen); err != nil {
+			return err
+		}
+	}
+	if h.lastBuckets > bucketsBefore {
+		h.holeGrowSplits += h.lastBuckets - bucketsBefore
+	}
+	return h.fullCheck("after the hole-and-grow phase")
 }
 
 func (h *hist) classify() {
@@ -557,6 +649,7 @@ func (h *hist) classify() {
 	c("cases_free_reuse", h.freeReuse > 0)
 	c("cases_reput_after_hole", h.reputAfterHole > 0)
 	c("cases_split_with_hole", h.splitWithHole > 0)
+	c("cases_hole_and_grow_phase_with_split", h.holeGrowSplits > 0)
 	c("cases_rollover", h.rollovers > 0)
 	c("cases_compacted_segments", h.compactedSegs > 0)
 	c("cases_restart", h.restarts > 0)
